@@ -284,12 +284,13 @@ def _u_ga(a, sy):
 
 def _b_cfg(R, sy):
     from pybrops.breed.prot.sel.cfg.SubsetSelectionConfiguration import SubsetSelectionConfiguration as C
-    return C(ncross=2, nparent=2, nmating=1, nprogeny=1, pgmat=_pgmat(4, 1), xconfig_decn=numpy.array([0, 1, 2]), rng=R)
+    # exactly one full set of the chosen individuals per sampling (no remainder)
+    return C(ncross=2, nparent=2, nmating=1, nprogeny=1, pgmat=_pgmat(4, 1), xconfig_decn=numpy.array([2, 0, 3, 1]), rng=R)
 
 
 def _u_cfg(c, sy):
     c.sample_xconfig()
-    return c.xconfig
+    return [c.xconfig, c.xconfig_decn]
 
 
 OBJ = dict(pheno=(_b_pheno("plain"), _u_pheno), pheno_deepcopy=(_b_pheno("deepcopy"), _u_pheno), pheno_copy=(_b_pheno("copy"), _u_pheno),
@@ -335,6 +336,17 @@ for _enc in ("Real", "Integer", "Binary"):
 # components that accept a caller-supplied generator
 TAKES_RNG = ["tiled", "sus", "axis", "outcross", "cfg_subset", "cfg_integer", "cfg_binary", "cfg_real", "cfg_mate", "twoway", "twowaydh", "selfc", "threeway", "threewaydh",
              "fourway", "fourwaydh", "hillclimb", "ga", "nsga2", "select", "pheno", "pheno_copy", "select_real", "select_integer", "select_binary"]
+
+
+def frozen(x):
+    """snapshot of an output structure (arrays copied): later runs must not be able to change what an earlier run returned"""
+    if isinstance(x, numpy.ndarray):
+        return x.copy()
+    if isinstance(x, (list, tuple)):
+        return [frozen(e) for e in x]
+    if isinstance(x, dict):
+        return {k: frozen(v) for k, v in x.items()}
+    return x
 
 
 def flat(x, acc=None):
@@ -411,14 +423,17 @@ class Repro(_EnvHarness):
             if pre:
                 # objects constructed (and copied) before the generator is re-seeded, in an arbitrary earlier stream state
                 env.new_run("pre")
+                env.npglobal.symbolic_calls = 0        # construction phase: one fixed (identity) order per shuffle; the data flow is what matters here
                 objs = [OBJ[c][0](None, True) for c in self.params["prog"]]
+                env.npglobal.symbolic_calls = None
+                env.npglobal._nperm = 0
             for label in ("A", "B"):
                 env.new_run(label)
                 if self.params.get("twin") == "unseeded" and label == "B":
                     pass                # reachability twin: second run is not re-seeded
                 else:
                     prng.seed(inp["seed"])
-                outs.append([OBJ[c][1](o, True) for c, o in zip(self.params["prog"], objs)] if pre else self._prog(None, True))
+                outs.append(frozen([OBJ[c][1](o, True) for c, o in zip(self.params["prog"], objs)] if pre else self._prog(None, True)))
                 snaps.append(env.snapshot())
                 traps.append([l for l in env.log if l[0] == "trap"])
             self._draws = env.draw_names()
@@ -435,7 +450,9 @@ class Repro(_EnvHarness):
         import random
         compat.load(*self.modules())
         compat.symbolic_mode(False)
+        import importlib
         import pybrops.core.random.prng as prng
+        importlib.reload(prng)          # module-level state the symbolic runs may have left behind must not leak into the real replay
         s = int(self.params["seedval"]) if self.params.get("seedval") is not None else int(vals.get("seed", 0))
         res = []
         pre = bool(self.params.get("prebuilt"))
@@ -452,7 +469,7 @@ class Repro(_EnvHarness):
                 random.getrandbits(70)
                 numpy.random.uniform(size=2)
             prng.seed(s)
-            o = [OBJ[c][1](ob, False) for c, ob in zip(self.params["prog"], objs)] if pre else self._prog(None, False)
+            o = frozen([OBJ[c][1](ob, False) for c, ob in zip(self.params["prog"], objs)] if pre else self._prog(None, False))
             res.append((o, random.getstate(), numpy.random.get_state()))
         for k in (1, 2):
             if not bit_equal(res[0][0], res[k][0]):
@@ -484,7 +501,7 @@ class Isolated(_EnvHarness):
                 env.new_run(label)
                 g = entropy.StreamRNG("g", env, "explicit")
                 snaps0.append(env.snapshot())
-                outs.append(self._prog(g, True))
+                outs.append(frozen(self._prog(g, True)))
                 snaps1.append(env.snapshot())
                 counts.append((dict(env.count), dict(env.reseeds), [l for l in env.log if l[0] != "explicit"][:4], g.ncall))
         return dict(outs=outs, counts=counts, snaps0=snaps0, snaps1=snaps1)
@@ -595,7 +612,7 @@ def obligations(tier):
     for sv in (0, 2 ** 32 - 1, 1):
         obs.append(Repro(prog=["wrappers", "spawn"], seedval=sv))
     obs.append(Repro(prog=["twoway"], seedval=0))
-    for c in (["pheno", "pheno_deepcopy", "pheno_copy", "pheno_mdeepcopy", "mate_obj", "hill_obj", "ga_obj"]):
+    for c in (["pheno", "pheno_deepcopy", "pheno_copy", "pheno_mdeepcopy", "mate_obj", "hill_obj", "ga_obj", "cfg_obj"]):
         obs.append(Repro(prog=[c], prebuilt=True))
     obs.append(Repro(prog=["pheno_deepcopy", "mate_obj"], prebuilt=True))
     obs.append(ExpectRefuted(Repro(prog=["wrappers"], twin="unseeded")))
